@@ -1,0 +1,106 @@
+//go:build verif
+
+// Contracts for the deductive verifier in /verif (gvc). Comment-only: compiled only under the build
+// tag `verif`, contains no code.
+package testonly
+
+// ---- C03: the @testonly checker -----------------------------------------------------------------------------------
+// `packageAnnotations` is a ghost parameter: the property is stated over the annotation relations toTypeDeclared /
+// toFuncDeclared / toMethDeclared (src/indexing/zz_contracts_verif.go); the lookup tables must be exactly these.
+//@ macro func toCtxOK(ctx *testOnlyContext, ann *annotations.PackageAnnotations) bool = ctx != nil && ctx.pass != nil && ctx.pass.Pkg != nil && ann != nil && ctx.testOnlyFuncs != nil && ctx.testOnlyMethods != nil && ctx.testOnlyTypes != nil && ctx.currentPkgPath != nil && ctx.fileName != nil && *ctx.currentPkgPath == ctx.pass.Pkg.Path() && (forall p string, t string :: tmHas(*ctx.testOnlyTypes, p, t) <==> toTypeDeclared(ctx.pass, ann, p, t)) && (forall p string, t string, x string :: contains(tarList(*ctx.testOnlyFuncs, p, t), x) <==> toFuncDeclared(ctx.pass, ann, p, t, x)) && (forall p string, t string, x string :: contains(tarList(*ctx.testOnlyMethods, p, t), x) <==> toMethDeclared(ctx.pass, ann, p, t, x))
+
+// the function or method declaration fd is itself @testonly
+//@ pure func inTO(pass *analysis.Pass, ann *annotations.PackageAnnotations, fd *ast.FuncDecl) bool = (fd.Recv != nil && len(fd.Recv.List) > 0) ? toMethDeclared(pass, ann, pass.Pkg.Path(), recvTypeName(fd.Recv.List[0].Type), fd.Name.Name) : toFuncDeclared(pass, ann, pass.Pkg.Path(), fd.Name.Name, fd.Name.Name)
+
+//@ func isInTestOnlyContext
+//@   props C03 C10
+//@   ghostparam packageAnnotations *annotations.PackageAnnotations
+//@   nilable currentFunc
+//@   requires toCtxOK(ctx, packageAnnotations)
+//@   ensures result == (currentFunc != nil && inTO(ctx.pass, packageAnnotations, currentFunc))
+//@   assigns nothing
+
+// a call that must be reported: the callee object is a @testonly function (TONL02) or method (TONL03)
+//@ pure func callHit(pass *analysis.Pass, ann *annotations.PackageAnnotations, call *ast.CallExpr, code string) bool = (typeis(call.Fun, *ast.Ident) && typeis(pass.TypesInfo.Uses[cast(call.Fun, *ast.Ident)], *types.Func) && cast(pass.TypesInfo.Uses[cast(call.Fun, *ast.Ident)], *types.Func).Pkg() != nil && toFuncDeclared(pass, ann, cast(pass.TypesInfo.Uses[cast(call.Fun, *ast.Ident)], *types.Func).Pkg().Path(), cast(call.Fun, *ast.Ident).Name, cast(call.Fun, *ast.Ident).Name) && code == "TONL02") || (typeis(call.Fun, *ast.SelectorExpr) && selHit(pass, ann, cast(call.Fun, *ast.SelectorExpr), code))
+// pkg.F(...) with F @testonly, or x.M(...) with M a @testonly method of the defined type of x
+//@ pure func selHit(pass *analysis.Pass, ann *annotations.PackageAnnotations, sel *ast.SelectorExpr, code string) bool = (typeis(sel.X, *ast.Ident) && pass.TypesInfo.Uses[cast(sel.X, *ast.Ident)] != nil && typeis(pass.TypesInfo.Uses[cast(sel.X, *ast.Ident)], *types.PkgName)) ? (toFuncDeclared(pass, ann, cast(pass.TypesInfo.Uses[cast(sel.X, *ast.Ident)], *types.PkgName).Imported().Path(), sel.Sel.Name, sel.Sel.Name) && code == "TONL02") : (isDef(pass.TypesInfo.TypeOf(sel.X)) && toMethDeclared(pass, ann, defPkg(pass.TypesInfo.TypeOf(sel.X)), defName(pass.TypesInfo.TypeOf(sel.X)), sel.Sel.Name) && code == "TONL03")
+
+//@ func findFunctionCallViolation
+//@   props C03 C13 C10
+//@   ghostparam packageAnnotations *annotations.PackageAnnotations
+//@   requires toCtxOK(ctx, packageAnnotations)
+//@   fresh
+//@   ensures result != nil ==> callHit(ctx.pass, packageAnnotations, call, result.Code) && result.Pos == call.Pos() && result.UsedInFile == *ctx.fileName
+//@   ensures result == nil ==> (forall code string :: !callHit(ctx.pass, packageAnnotations, call, code))
+//@   assigns nothing
+
+// T is (a pointer to, an alias of) a @testonly defined type
+//@ pure func typeHit(pass *analysis.Pass, ann *annotations.PackageAnnotations, T types.Type) bool = isDef(T) && toTypeDeclared(pass, ann, defPkg(T), defName(T))
+
+//@ func findTypeLiteralViolation
+//@   props C03 C13 C10
+//@   ghostparam packageAnnotations *annotations.PackageAnnotations
+//@   requires toCtxOK(ctx, packageAnnotations)
+//@   fresh
+//@   ensures (result != nil) == typeHit(ctx.pass, packageAnnotations, ctx.pass.TypesInfo.TypeOf(node))
+//@   ensures result != nil ==> result.Code == "TONL01" && result.Pos == node.Pos() && result.TestOnlyObj == defName(ctx.pass.TypesInfo.TypeOf(node)) && result.ObjPkgPath == defPkg(ctx.pass.TypesInfo.TypeOf(node)) && result.UsedInFile == *ctx.fileName
+//@   assigns nothing
+
+//@ func findTypeUsageViolation
+//@   props C03 C13 C10
+//@   ghostparam packageAnnotations *annotations.PackageAnnotations
+//@   requires toCtxOK(ctx, packageAnnotations)
+//@   fresh
+//@   ensures (result != nil) == (typeExpr != nil && typeHit(ctx.pass, packageAnnotations, ctx.pass.TypesInfo.TypeOf(typeExpr)))
+//@   ensures result != nil ==> result.Code == "TONL01" && result.Pos == pos && result.TestOnlyObj == defName(ctx.pass.TypesInfo.TypeOf(typeExpr)) && result.ObjPkgPath == defPkg(ctx.pass.TypesInfo.TypeOf(typeExpr)) && result.UsedInFile == *ctx.fileName
+//@   assigns nothing
+
+//@ func isTestFile
+//@   props C03 C14 C10
+//@   ensures result == strings.HasSuffix(filename, "_test.go")
+//@   assigns nothing
+
+// ---- the walk ----------------------------------------------------------------------------------------------------
+//@ macro func fname(pass *analysis.Pass, f *ast.File) string = pass.Fset.Position(f.Pos()).Filename
+//@ macro func tkey(T types.Type) string = defPkg(T) + "." + defName(T)
+//@ macro func vkey(v TestOnlyViolation) string = v.ObjPkgPath + "." + v.TestOnlyObj
+// the decision of the suppression set (what IgnoreSet.Contains answers, C16)
+//@ macro func supp(ign *util.IgnoreSet, code string, pos token.Pos) bool = ign != nil && ign.Initialized && suppressed(ign, code, pos)
+
+// node n uses the @testonly type with key `key`; pos is where it would be reported
+//@ pure func useOf(pass *analysis.Pass, ann *annotations.PackageAnnotations, n ast.Node, key string, pos token.Pos) bool = (typeis(n, *ast.CompositeLit) && typeHit(pass, ann, pass.TypesInfo.TypeOf(cast(n, *ast.CompositeLit))) && key == tkey(pass.TypesInfo.TypeOf(cast(n, *ast.CompositeLit))) && pos == n.Pos()) || (typeis(n, *ast.ValueSpec) && cast(n, *ast.ValueSpec).Type != nil && typeHit(pass, ann, pass.TypesInfo.TypeOf(cast(n, *ast.ValueSpec).Type)) && key == tkey(pass.TypesInfo.TypeOf(cast(n, *ast.ValueSpec).Type)) && pos == n.Pos()) || (typeis(n, *ast.Field) && typeHit(pass, ann, pass.TypesInfo.TypeOf(cast(n, *ast.Field).Type)) && key == tkey(pass.TypesInfo.TypeOf(cast(n, *ast.Field).Type)) && pos == n.Pos())
+// ... and is not suppressed
+//@ pure func live(pass *analysis.Pass, ann *annotations.PackageAnnotations, ign *util.IgnoreSet, n ast.Node, key string, pos token.Pos) bool = n != nil && useOf(pass, ann, n, key, pos) && !supp(ign, "TONL01", pos)
+// node n is a call of a @testonly function or method that is not suppressed
+//@ pure func liveCall(pass *analysis.Pass, ann *annotations.PackageAnnotations, ign *util.IgnoreSet, n ast.Node, code string, pos token.Pos) bool = n != nil && typeis(n, *ast.CallExpr) && callHit(pass, ann, cast(n, *ast.CallExpr), code) && pos == n.Pos() && !supp(ign, code, pos)
+
+// n lies inside a function or method declaration of file f that is itself @testonly
+//@ macro func exempt(pass *analysis.Pass, ann *annotations.PackageAnnotations, f *ast.File, n ast.Node) bool = exists a ast.Node :: inspIn(a, f) && properAnc(a, n) && typeis(a, *ast.FuncDecl) && inTO(pass, ann, cast(a, *ast.FuncDecl))
+
+// a reported violation is justified by an event of the walk of a non-test, analysed file: a live call, or the FIRST live
+// use of its type key in that file
+//@ pure func justifiedT(cfg *config.Config, pass *analysis.Pass, ann *annotations.PackageAnnotations, ign *util.IgnoreSet, v TestOnlyViolation) bool = exists f *ast.File, k int :: contains(pass.Files, f) && !skipFile(cfg, pass, f) && !strings.HasSuffix(fname(pass, f), "_test.go") && v.UsedInFile == fname(pass, f) && 0 <= k && k < len(inspEvents(f)) && (liveCall(pass, ann, ign, inspEvents(f)[k], v.Code, v.Pos) || (v.Code == "TONL01" && live(pass, ann, ign, inspEvents(f)[k], vkey(v), v.Pos) && (forall k2 int, pos2 token.Pos :: 0 <= k2 && k2 < k ==> !live(pass, ann, ign, inspEvents(f)[k2], vkey(v), pos2))))
+// everything demanded in the first m events of the walk of file f has been reported
+//@ pure func doneUpTo(pass *analysis.Pass, ann *annotations.PackageAnnotations, ign *util.IgnoreSet, vs []TestOnlyViolation, f *ast.File, m int) bool = (forall k int, code string, pos token.Pos :: 0 <= k && k < m && liveCall(pass, ann, ign, inspEvents(f)[k], code, pos) ==> (exists j int :: 0 <= j && j < len(vs) && vs[j].Code == code && vs[j].Pos == pos && vs[j].UsedInFile == fname(pass, f))) && (forall k int, key string, pos token.Pos :: 0 <= k && k < m && live(pass, ann, ign, inspEvents(f)[k], key, pos) ==> (exists j int :: 0 <= j && j < len(vs) && vs[j].Code == "TONL01" && vkey(vs[j]) == key && vs[j].UsedInFile == fname(pass, f)))
+// everything demanded at the nodes of file f outside @testonly declarations has been reported
+//@ pure func doneFile(pass *analysis.Pass, ann *annotations.PackageAnnotations, ign *util.IgnoreSet, vs []TestOnlyViolation, f *ast.File) bool = (forall n ast.Node, code string, pos token.Pos :: inspIn(n, f) && !exempt(pass, ann, f, n) && liveCall(pass, ann, ign, n, code, pos) ==> (exists j int :: 0 <= j && j < len(vs) && vs[j].Code == code && vs[j].Pos == pos && vs[j].UsedInFile == fname(pass, f))) && (forall n ast.Node, key string, pos token.Pos :: inspIn(n, f) && !exempt(pass, ann, f, n) && live(pass, ann, ign, n, key, pos) ==> (exists j int :: 0 <= j && j < len(vs) && vs[j].Code == "TONL01" && vkey(vs[j]) == key && vs[j].UsedInFile == fname(pass, f)))
+
+// C03: in every analysed non-test file every unsuppressed call of a @testonly function/method outside @testonly
+// declarations is reported, every @testonly type used there is reported (TONL01) at its first unsuppressed use, and
+// nothing else is reported.
+//@ func CheckTestOnly
+//@   props C03 C07 C08 C12 C14 C10
+//@   requires cfg != nil && pass.Pkg != nil && packageAnnotations != nil && (ignoreSet != nil ==> isetInv(ignoreSet))
+//@   ensures forall j int :: 0 <= j && j < len(result) ==> justifiedT(cfg, pass, packageAnnotations, ignoreSet, result[j])
+//@   ensures forall f *ast.File :: contains(pass.Files, f) && !skipFile(cfg, pass, f) && !strings.HasSuffix(fname(pass, f), "_test.go") ==> doneFile(pass, packageAnnotations, ignoreSet, result, f)
+//@   loop 1 frame entry
+//@   at call ast.Inspect#1 frame entry
+//@   loop 1 invariant forall j int :: 0 <= j && j < len(violations) ==> justifiedT(cfg, pass, packageAnnotations, ignoreSet, violations[j])
+//@   loop 1 invariant forall k int :: 0 <= k && k < $i && !strings.HasSuffix(fname(pass, $seq[k]), "_test.go") ==> doneFile(pass, packageAnnotations, ignoreSet, violations, $seq[k])
+//@   at call ast.Inspect#1 prunes typeis($node, *ast.FuncDecl) && inTO(pass, packageAnnotations, cast($node, *ast.FuncDecl))
+//@   at call ast.Inspect#1 invariant forall j int :: 0 <= j && j < len(violations) ==> justifiedT(cfg, pass, packageAnnotations, ignoreSet, violations[j])
+//@   at call ast.Inspect#1 invariant forall k int :: 0 <= k && k < $i1 && !strings.HasSuffix(fname(pass, $seq1[k]), "_test.go") ==> doneFile(pass, packageAnnotations, ignoreSet, violations, $seq1[k])
+//@   at call ast.Inspect#1 invariant atentry(len(violations)) <= len(violations)
+//@   at call ast.Inspect#1 invariant forall k int, key string, pos token.Pos :: 0 <= k && k < $i && live(pass, packageAnnotations, ignoreSet, $seq[k], key, pos) ==> reportedTypes[key]
+//@   at call ast.Inspect#1 invariant forall key string :: reportedTypes[key] ==> (exists j int :: atentry(len(violations)) <= j && j < len(violations) && violations[j].Code == "TONL01" && vkey(violations[j]) == key && violations[j].UsedInFile == fileName)
+//@   at call ast.Inspect#1 invariant doneUpTo(pass, packageAnnotations, ignoreSet, violations, file, $i)
